@@ -2,6 +2,7 @@ import AslModel.Codec
 import AslModel.Sha1
 import AslProofs.Codec
 import AslProofs.Sha1
+import AslProofs.Sha1Std
 import AslProofs.Query3
 /-!
 # C15 — Base64, hex, percent-encoding and SHA-1 match their standards on all inputs
@@ -283,6 +284,41 @@ theorem sha1_eq_spec (m : List UInt8) : AslModel.Sha1.Impl.hash m = AslModel.Sha
 theorem sha1_chunking_irrelevant (ds : List (List UInt8)) :
     AslModel.Sha1.Impl.hashChunks ds = AslModel.Sha1.Fips.sha1 ds.flatten :=
   AslProofs.Sha1.hashChunks_eq_fips ds
+
+/-- **sha1_eq_standard.**  `SHA1::hash` equals FIPS 180-4 SHA-1 *as printed*: `Std.sha1` is written from the
+    standard alone (Ch / Parity / Maj, K_t, H(0), ROTL, the 80-word schedule, §5.1.1 padding) and shares no round
+    function, constant, rotation or padding with the implementation model. -/
+theorem sha1_eq_standard (m : List UInt8) : AslModel.Sha1.Impl.hash m = AslModel.Sha1.Std.sha1 m := by
+  rw [AslProofs.Sha1.hash_eq_fips, AslProofs.Sha1Std.fips_eq_std]
+
+/-- the code's boolean round functions `(w&(x^y))^y`, `w^x^y`, `((w|x)&y)|(w&x)` are Ch, Parity and Maj, bit for bit -/
+theorem sha1_round_functions_standard (t : Nat) (b c d : UInt32) :
+    AslModel.Sha1.f t b c d = AslModel.Sha1.Std.ft t b c d := AslProofs.Sha1Std.f_eq t b c d
+
+/-- the padded message is a whole number of 512-bit blocks (so no tail is silently dropped by the block split) -/
+theorem sha1_pad_block_multiple (m : List UInt8) : (AslModel.Sha1.Std.pad m).length % 64 = 0 :=
+  AslProofs.Sha1Std.pad_length m
+
+/-- the bit counter's two 32-bit words, updated as `SHA1::update` does, hold exactly (old count + 8·len) mod 2^64
+    for every `int len ≥ 0` — with signed words (the code before its repair) this fails from len = 2^28 on -/
+theorem sha1_count_words_exact (c0 c1 : UInt32) (len : Nat) (hl : len < 2 ^ 31) :
+    (AslModel.Sha1.Impl.countWords c0 c1 len).2.toNat * 2 ^ 32 + (AslModel.Sha1.Impl.countWords c0 c1 len).1.toNat =
+      (c1.toNat * 2 ^ 32 + c0.toNat + 8 * len) % 2 ^ 64 := AslProofs.Sha1Std.count_words_exact c0 c1 len hl
+
+/-- G obligations: what src/SHA1.cpp says now (macros R0..R4, the 80 unrolled calls, initial state, counter type) -/
+theorem sha1_source_constants :
+    (∀ t, t < 80 → AslModel.Sha1.k t = sha1K.getD (if t < 16 then 0 else if t < 20 then 1 else if t < 40 then 2 else if t < 60 then 3 else 4) 0) ∧
+    sha1F = [0, 0, 1, 2, 1] ∧
+    sha1Init = [AslModel.Sha1.init.a, AslModel.Sha1.init.b, AslModel.Sha1.init.c, AslModel.Sha1.init.d, AslModel.Sha1.init.e] ∧
+    sha1CountUnsigned = true := by
+  refine ⟨by decide +kernel, by decide, by decide, by decide⟩
+
+/-- FIPS 180-4 two-block example ("abcdbcdecdefdefgefghfghighijhijkijkljklmklmnlmnomnopnopq"), on the standard spec -/
+theorem std_spec_two_blocks : AslModel.Sha1.Std.sha1
+    [97,98,99,100,98,99,100,101,99,100,101,102,100,101,102,103,101,102,103,104,102,103,104,105,103,104,105,106,104,105,106,107,
+     105,106,107,108,106,107,108,109,107,108,109,110,108,109,110,111,109,110,111,112,110,111,112,113] =
+    [0x84, 0x98, 0x3E, 0x44, 0x1C, 0x3B, 0xD2, 0x6E, 0xBA, 0xAE, 0x4A, 0xA1, 0xF9, 0x51, 0x29, 0xE5, 0xE5, 0x46, 0x70, 0xF1] := by
+  decide +kernel
 
 /-- the specification itself on the FIPS 180 test vector "abc" (a test of the spec, labelled as such) -/
 theorem fips_spec_abc : AslModel.Sha1.Fips.sha1 [97, 98, 99] =
